@@ -245,7 +245,7 @@ func Run(c Cfg, choose Chooser, maxLabels int) Result {
 						}
 					}
 				}
-				opts = append(opts, "CC", "PFo", "PFc", "HG", "TM499")
+				opts = append(opts, "CC", "PFo", "PFc", "HG")
 				if !c.OneWay {
 					opts = append(opts, "DR")
 				}
